@@ -6,6 +6,7 @@ import os
 from typing import Dict, List, Optional, Set, Tuple
 
 from ..cfg import CFG, ENTRY, EXIT, reaching_defs
+from .. import sym
 from ..core import AnalysisError, FunctionInfo, Project, dotted, is_const, kwarg, norm, param_names, walk_no_nested
 from ..report import VERIF
 from ..util import assignments, count_negations, header_calls, header_walk, mentions, returns_of, stmt_text, strip_casts
@@ -659,7 +660,15 @@ def r4(ctx):
                           f"mutable default `{pn}={norm(d)}` on a function that is not wrapped by stateful_transform: state leaks across calls in the process")
     ctx.floor("C18.R4", n_def, 4, "mutable parameter defaults")
     w = P.func("formulaic.utils.stateful_transforms.stateful_transform").locals_named("wrapper")
-    ok = "_state = {} if _state is None else _state" in norm(w.node)
+    from ..expect import contains_any
+    sp_ = next((p_ for p_ in param_names(w.node) if p_ == "_state"), None)
+    ok, _why = contains_any(P, w, [f"""
+        def wrapper(data, *args, _metadata=None, _state=None, _spec=None, _context=None, **kwargs):
+            {alt}
+            extra_params = {{}}
+            ...
+    """ for alt in ("_state = {} if _state is None else _state", "_state = _state if _state is not None else {}", "if _state is None:\n                _state = {}")]) \
+        if sp_ else (False, "")
     ctx.check(ok, "C18.R4", "the stateful wrapper supplies a fresh state dict when none is given", w.where, ctx.construct(w, text="fresh state"),
               "expected `_state = {} if _state is None else _state`")
 
